@@ -334,6 +334,12 @@ impl InterfaceInner {
                     return;
                 }
 
+                if !pkt.is_empty() && !pkt.finished() {
+                    // Never overwrite the fragments of a packet that is still being sent.
+                    net_debug!("dispatch_ieee802154: dropping, fragmentation buffer is in use");
+                    return;
+                }
+
                 let payload_length = packet.header.payload_len;
 
                 Self::ipv6_to_sixlowpan(
